@@ -122,6 +122,9 @@ class H2Protocol:
                 h2.settings.SettingCodes.ENABLE_CONNECT_PROTOCOL: 1,
             },
         )
+        # h2 applies a new header list size to its decoder only when a
+        # changed setting is acknowledged, initial values never are.
+        self.connection.decoder.max_header_list_size = config.h2_max_header_list_size
 
         self.keep_alive_requests = 0
         self.send = send
